@@ -1,8 +1,8 @@
 """C01 dataflow semantics: no loss, duplication, reordering (structural clauses)"""
-from ..rules import delivery, flow
+from ..rules import topology, delivery, flow
 from .common import declare
 
-RULES = ['FANOUT', 'EMIT-SIG', 'PASS-VALUE', 'FIFO-END', 'SWAP-ATOMIC', 'FLUSH-RESETS', 'STATE-PER-INSTANCE', 'FRESH-READ', 'REVERSED-STACK', 'FLAT-RETURN', 'PROPAGATE']
+RULES = ['FANOUT', 'EMIT-SIG', 'PASS-VALUE', 'FIFO-END', 'SWAP-ATOMIC', 'FLUSH-RESETS', 'STATE-PER-INSTANCE', 'FRESH-READ', 'REVERSED-STACK', 'FLAT-RETURN', 'PROPAGATE', 'NONE-SENTINEL']
 FLOORS = {'FANOUT': 4, 'EMIT-SIG': 30, 'PASS-VALUE': 14, 'FIFO-END': 10, 'SWAP-ATOMIC': 6, 'FLAT-RETURN': 20, 'PROPAGATE': 30}
 CATALOGUE = ('Stream', 'map', 'starmap', 'filter', 'accumulate', 'slice', 'partition', 'partition_unique',
              'sliding_window', 'unique', 'flatten', 'pluck', 'collect', 'union', 'zip', 'combine_latest', 'zip_latest')
@@ -26,7 +26,7 @@ def run(ctx, R):
                      'catalogue. Decides fan-out/order/emission-count/FIFO/atomic-flush shapes; does not decide the value-level '
                      'list function of each node.')
     R.not_decided = ['list-level function of each node (len(buffer)==n, LRU eviction, pack_literals, emit_on, slice arithmetic)']
-    declare(R, {**flow.RULES, **delivery.RULES}, RULES, FLOORS)
+    declare(R, {**flow.RULES, **delivery.RULES, **topology.RULES}, RULES, FLOORS)
     M = ctx.model
     core = [c for c in M.nodes if c.module.name in ('streamz.core', 'streamz.sinks')]
     R.run(delivery.check_fanout, ctx, R)
@@ -39,4 +39,5 @@ def run(ctx, R):
     R.run(delivery.check_reversed_stack, ctx, R, core)
     R.run(delivery.check_state_per_instance, ctx, R, [c for c in M.nodes if c.module.name in ('streamz.core', 'streamz.sinks', 'streamz.sources', 'streamz.dask')])
     R.run(flow.check_flat_return, ctx, R, core)
+    R.run(topology.check_none_sentinel, ctx, R, [c for c in M.nodes if c.module.name == 'streamz.core'])
     R.run(flow.check_propagate, ctx, R, modules=('streamz.core', 'streamz.sinks'), note_modules=())
